@@ -31,25 +31,39 @@ def prefixLen (data : Bytes) (addrlen : Nat) : Except (Nat × Nat) Nat :=
     else if bl > addrlen * 8 then .error (3, 10)
     else .ok (1 + bytelen)
 
-/-- withdrawn-routes loop: `routelen` bytes remain to be consumed -/
-def scanWithdrawn : Nat → Nat → Bytes → Nat → Except (Nat × Nat) (Bytes × Nat)
-  | 0, _, data, n => .ok (data, n)
-  | fuel + 1, routelen, data, n =>
-    if routelen == 0 then .ok (data, n)
-    else match prefixLen data 4 with
+def be32 (d : Bytes) : Nat :=
+  ((d.getD 0 0 * 256 + d.getD 1 0) * 256 + d.getD 2 0) * 256 + d.getD 3 0
+
+/-- withdrawn-routes loop: `routelen` bytes remain to be consumed; with ADD-PATH (`ap`) every prefix
+    is preceded by a 4-octet path identifier.  Result: rest of the data, identifiers in order -/
+def scanWithdrawn (ap : Bool) : Nat → Nat → Bytes → List Nat → Except (Nat × Nat) (Bytes × List Nat)
+  | 0, _, data, ids => .ok (data, ids)
+  | fuel + 1, routelen, data, ids =>
+    if routelen == 0 then .ok (data, ids)
+    else if ap && data.length < 4 then .error (3, 1)
+    else
+      let id := if ap then be32 data else 0
+      let d := if ap then data.drop 4 else data
+      match prefixLen d 4 with
       | .error e => .error e
       | .ok w =>
-        if w > routelen then .error (3, 1)
-        else scanWithdrawn fuel (routelen - w) (data.drop w) (n + 1)
+        let wl := w + (if ap then 4 else 0)
+        if wl > routelen then .error (3, 1)
+        else scanWithdrawn ap fuel (routelen - wl) (d.drop w) (ids ++ [id])
 
-/-- NLRI loop (also the prefix loops of MP_REACH / MP_UNREACH) -/
-def scanPrefixes : Nat → Bytes → Nat → Nat → Except (Nat × Nat) Nat
-  | 0, _, _, n => .ok n
-  | fuel + 1, data, addrlen, n =>
-    if data.isEmpty then .ok n
-    else match prefixLen data addrlen with
+/-- NLRI loop (also the prefix loops of MP_REACH / MP_UNREACH).  A missing path identifier is
+    reported as (0, 0); the caller maps it to its own subcode. -/
+def scanPrefixes (ap : Bool) : Nat → Bytes → Nat → List Nat → Except (Nat × Nat) (List Nat)
+  | 0, _, _, ids => .ok ids
+  | fuel + 1, data, addrlen, ids =>
+    if data.isEmpty then .ok ids
+    else if ap && data.length < 4 then .error (0, 0)
+    else
+      let id := if ap then be32 data else 0
+      let d := if ap then data.drop 4 else data
+      match prefixLen d addrlen with
       | .error e => .error e
-      | .ok w => scanPrefixes fuel (data.drop w) addrlen (n + 1)
+      | .ok w => scanPrefixes ap fuel (d.drop w) addrlen (ids ++ [id])
 
 /-- validateAsPathValueBytes loop: segment types, or none when malformed -/
 def asSegs (asSize : Nat) : Nat → Bytes → Option (List Nat)
@@ -75,7 +89,9 @@ def familySupported (afi safi : Nat) : Bool :=
 
 /-- type-specific part of each attribute's DecodeFromBytes, after the generic header succeeded.
     `none` = outside the modelled fragment. -/
-def attrValue (use2 : Bool) (typ flags : Nat) (value : Bytes) : Option AttrObs :=
+def attrValue (use2 ap4 ap6 : Bool) (typ flags : Nat) (value : Bytes) : Option AttrObs :=
+  -- IsAddPathEnabled(true, family): only the two unicast families are ever negotiated here
+  let apOf (afi safi : Nat) : Bool := (afi == 1 && safi == 1 && ap4) || (afi == 2 && safi == 1 && ap6)
   let len := value.length
   let base : AttrObs := { typ := typ, flags := flags }
   let bad (c s : Nat) : Option AttrObs := some { base with derr := some (c, s) }
@@ -112,18 +128,20 @@ def attrValue (use2 : Bool) (typ flags : Nat) (value : Bytes) : Option AttrObs :
             let v2 := v1.drop nhl
             if v2.isEmpty then bad 3 5
             else if !familySupported afi safi then none
-            else match scanPrefixes v2.length (v2.drop 1) (addrLenOf afi) 0 with
+            else match scanPrefixes (apOf afi safi) v2.length (v2.drop 1) (addrLenOf afi) [] with
+              | .error (0, 0) => bad 3 5
               | .error _ => bad 3 10
-              | .ok n => some { base with afi := afi, safi := safi, npfx := n }
+              | .ok ids => some { base with afi := afi, safi := safi, npfx := ids.length, ids := ids }
   | 15 =>
     if len < 3 then bad 3 5
     else
       let afi := u16 (value.getD 0 0) (value.getD 1 0)
       let safi := value.getD 2 0
       if !familySupported afi safi then none
-      else match scanPrefixes len (value.drop 3) (addrLenOf afi) 0 with
+      else match scanPrefixes (apOf afi safi) len (value.drop 3) (addrLenOf afi) [] with
+        | .error (0, 0) => bad 3 5
         | .error _ => bad 3 10
-        | .ok n => some { base with afi := afi, safi := safi, npfx := n }
+        | .ok ids => some { base with afi := afi, safi := safi, npfx := ids.length, ids := ids }
   | 16 => if len % 8 != 0 then bad 3 5 else some base
   | 17 =>
     if len == 0 then some base
@@ -140,7 +158,7 @@ structure OneAttr where
   deriving Repr
 
 /-- PathAttribute.DecodeFromBytes followed by the type-specific decoder; `data` has ≥ 3 bytes -/
-def oneAttr (use2 : Bool) (data : Bytes) : Option OneAttr :=
+def oneAttr (use2 ap4 ap6 : Bool) (data : Bytes) : Option OneAttr :=
   let flags := data.getD 0 0
   let typ := data.getD 1 0
   let base : AttrObs := { typ := typ, flags := flags }
@@ -153,41 +171,44 @@ def oneAttr (use2 : Bool) (data : Bytes) : Option OneAttr :=
     let body := data.drop hl
     if body.length < length then some ⟨{ base with derr := some (3, 5) }, hl + length⟩
     else if !flagsOk typ flags then some ⟨{ base with derr := some (3, 4) }, hl + length⟩
-    else (attrValue use2 typ flags (body.take length)).map (fun o => ⟨o, hl + length⟩)
+    else (attrValue use2 ap4 ap6 typ flags (body.take length)).map (fun o => ⟨o, hl + length⟩)
 
 /-- attribute loop: returns (items reversed, stop, rest of data after the attribute field) -/
-def scanAttrs (use2 : Bool) : Nat → Nat → Bytes → List AttrObs → Option (List AttrObs × Stop × Bytes)
+def scanAttrs (use2 ap4 ap6 : Bool) : Nat → Nat → Bytes → List AttrObs → Option (List AttrObs × Stop × Bytes)
   | 0, _, data, acc => some (acc, .done, data)
   | fuel + 1, pathlen, data, acc =>
     if pathlen == 0 then some (acc, .done, data)
     else if pathlen < 3 then some (acc, .short, data.drop pathlen)
-    else match oneAttr use2 data with
+    else match oneAttr use2 ap4 ap6 data with
       | none => none
       | some a =>
         if a.plen % 65536 > pathlen || data.length < a.plen then
           some (acc, .overrun a.obs, data.drop pathlen)
-        else scanAttrs use2 fuel (pathlen - a.plen % 65536) (data.drop a.plen) (a.obs :: acc)
+        else scanAttrs use2 ap4 ap6 fuel (pathlen - a.plen % 65536) (data.drop a.plen) (a.obs :: acc)
 
-/-- BGPUpdate.DecodeFromBytes, byte level.  `none` = outside the modelled fragment. -/
-def parse (use2 : Bool) (data : Bytes) : Option AMsg :=
+/-- BGPUpdate.DecodeFromBytes, byte level.  `ap4` / `ap6`: ADD-PATH receive negotiated for IPv4 /
+    IPv6 unicast.  `none` = outside the modelled fragment. -/
+def parse (use2 : Bool) (data : Bytes) (ap4 : Bool := false) (ap6 : Bool := false) : Option AMsg :=
   if data.length < 2 then some { pre := some (3, 1) }
   else
     let wlen := u16 (data.getD 0 0) (data.getD 1 0)
     let d1 := data.drop 2
     if d1.length < wlen then some { pre := some (3, 1) }
-    else match scanWithdrawn (wlen + 1) wlen d1 0 with
+    else match scanWithdrawn ap4 (wlen + 1) wlen d1 [] with
       | .error e => some { pre := some e }
-      | .ok (d2, nwd) =>
+      | .ok (d2, wids) =>
         if d2.length < 2 then some { pre := some (3, 1) }
         else
           let tlen := u16 (d2.getD 0 0) (d2.getD 1 0)
           let d3 := d2.drop 2
           if d3.length < tlen then some { pre := some (3, 1) }
-          else match scanAttrs use2 (tlen + 1) tlen d3 [] with
+          else match scanAttrs use2 ap4 ap6 (tlen + 1) tlen d3 [] with
             | none => none
             | some (acc, stop, rest) =>
-              match scanPrefixes (rest.length + 1) rest 4 0 with
-              | .error e => some { wd := nwd, items := acc.reverse, stop := stop, nlriErr := some e }
-              | .ok n => some { wd := nwd, items := acc.reverse, stop := stop, nlri := n }
+              match scanPrefixes ap4 (rest.length + 1) rest 4 [] with
+              | .error (0, 0) => some { wd := wids.length, wdIds := wids, items := acc.reverse, stop := stop, nlriErr := some (3, 1) }
+              | .error e => some { wd := wids.length, wdIds := wids, items := acc.reverse, stop := stop, nlriErr := some e }
+              | .ok nids => some { wd := wids.length, wdIds := wids, items := acc.reverse, stop := stop,
+                                   nlri := nids.length, nlriIds := nids }
 
 end UpdWire
